@@ -283,10 +283,16 @@ def run(ctx):
              if (hn == "sha256" or (mi in (0, 1, 4) and ti in (0, 1, 7, 9))) and (not q or mi != 8 or ti < 2)]
     if q:
         cases = [c for c in cases if c[1] in (0, 1, 3, 4, 6, 7, 8, 9) or c[0] < 2]
+    # the hashes / tags of one message stay in one task (one process, one call history): a result
+    # memoised under too coarse a key shows up inside the task
+    cases.sort(key=lambda c: (c[0], c[1], c[2]))
     for group in ("E2", "E1"):
         n = 16
+        per = -(-len(cases) // n)
         for i in range(n):
-            tasks.append(("pipe", {"group": group, "cases": cases[i::n], "sample": i == 0}))
+            ch = cases[i * per:(i + 1) * per]
+            if ch:
+                tasks.append(("pipe", {"group": group, "cases": ch, "sample": i == 0}))
     ctx.bounds = {"map_to_curve": plan, "pipeline_cases_per_group": len(cases), "hashes": hashes}
     ctx.pmap(ME, tasks)
     # branch-coverage requirement is part of the evidence, not a verdict on the code
